@@ -165,3 +165,65 @@ func SSAPos(ins ssa.Instruction) token.Pos {
 	}
 	return ins.Parent().Pos()
 }
+
+// AddrKey is the exported form of the cell key used by the taint analyses.
+func AddrKey(v ssa.Value) string { return addrKey(v) }
+
+// AliasClosure computes, flow-insensitively inside one function, the values that may share backing
+// memory with one of the seeds: slices of them, phis and type changes, values stored to and loaded
+// from the same cell, and the result of append when an aliased value is its first argument. A copy
+// (append(dst, seed...), copy(dst, seed), string conversion) does not alias.
+func AliasClosure(fn *ssa.Function, seeds []ssa.Value) map[ssa.Value]bool {
+	a := map[ssa.Value]bool{}
+	cells := map[string]bool{}
+	for _, s := range seeds {
+		a[s] = true
+	}
+	changed := true
+	mark := func(v ssa.Value) {
+		if v != nil && !a[v] {
+			a[v] = true
+			changed = true
+		}
+	}
+	for changed {
+		changed = false
+		for _, b := range fn.Blocks {
+			for _, ins := range b.Instrs {
+				switch x := ins.(type) {
+				case *ssa.Slice:
+					if a[x.X] {
+						mark(x)
+					}
+				case *ssa.Phi:
+					for _, e := range x.Edges {
+						if a[e] {
+							mark(x)
+						}
+					}
+				case *ssa.ChangeType:
+					if a[x.X] {
+						mark(x)
+					}
+				case *ssa.Store:
+					if a[x.Val] {
+						k := addrKey(x.Addr)
+						if !cells[k] {
+							cells[k] = true
+							changed = true
+						}
+					}
+				case *ssa.UnOp:
+					if x.Op == token.MUL && cells[addrKey(x.X)] {
+						mark(x)
+					}
+				case *ssa.Call:
+					if bi, ok := x.Common().Value.(*ssa.Builtin); ok && bi.Name() == "append" && len(x.Common().Args) > 0 && a[x.Common().Args[0]] {
+						mark(x)
+					}
+				}
+			}
+		}
+	}
+	return a
+}
